@@ -140,3 +140,27 @@ Definition why (c : case) : N :=
   | FSimple eo dd => (if check_enc (SimpleI.F eo dd) tt c then 0 else 1) + (if check_dec (SimpleI.F eo dd) (fun b => b) c then 0 else 2)
   | FBinc eo dd => (if check_enc (BincI.F eo dd) Binc.estate0 c then 0 else 1) + (if check_dec (BincI.F eo dd) (fun b => (Binc.dstate0, b)) c then 0 else 2)
   end%N.
+
+(* Extension values as sequence members (harness stream "ext"): the zero-length payload is an item like any
+   other ([IExt t []]: 0xc7 0x00 tag); decoded into interface{}, captured as Raw and skipped as an unknown field it
+   ends after its three bytes, and an observation in which it swallows the value that follows is a mismatch. *)
+Example ext_zero_len_ok :
+  check_case (mkcase 1 (fmsgpack true false false false false false)
+    [IExt 7%N []; IStr [110;101;120;116]%N; IInt 42%Z]
+    [199;0;7;164;110;101;120;116;42]%N [3;8;9]%N [0;0;0]%N
+    [IExt 7%N []; IStr [110;101;120;116]%N; IInt 42%Z] [[];[];[]] [3;8;9]%N) = true.
+Proof. vm_compute. reflexivity. Qed.
+
+Example ext_zero_len_skip_raw_ok :
+  check_case (mkcase 3 (fmsgpack true false false false false false)
+    [IExt 7%N []; IMap [(IStr [120]%N, IExt 7%N [])]; IInt 42%Z]
+    [199;0;7;129;161;120;199;0;7;42]%N [3;9;10]%N [1;2;0]%N
+    [INil; INil; IInt 42%Z] [[199;0;7]%N;[];[]] [3;9;10]%N) = true.
+Proof. vm_compute. reflexivity. Qed.
+
+Example ext_zero_len_swallow_rejected :
+  check_case (mkcase 2 (fmsgpack true false false false false false)
+    [IExt 7%N []; IStr [110;101;120;116]%N]
+    [199;0;7;164;110;101;120;116]%N [3;8]%N [0;1]%N
+    [ITag 7%N (IStr [110;101;120;116]%N); INil] [[];[]] [8;8]%N) = false.
+Proof. vm_compute. reflexivity. Qed.
